@@ -303,6 +303,9 @@ func firstRepoFrame(stack string) string {
 	lines := strings.Split(stack, "\n")
 	for _, l := range lines {
 		l = strings.TrimSpace(l)
+		if pre := os.Getenv("VERIF_REPO"); pre != "" && pre != "/repo" && strings.HasPrefix(l, pre+"/") {
+			l = "/repo/" + l[len(pre)+1:] // checks run against a scratch worktree report the same frames
+		}
 		if strings.HasPrefix(l, "/repo/") && !strings.Contains(l, "zz_verif") && !strings.Contains(l, "internal/verif") {
 			if i := strings.Index(l, " +0x"); i > 0 {
 				l = l[:i]
